@@ -366,7 +366,7 @@ def run(tier: str, seed: int) -> int:
             if key not in seen and c["mask"] != "none":
                 seen.add(key)
                 chosen.append(c)
-        chosen += rng.sample(configs, 80)
+        chosen += rng.sample(configs, 170)
         configs = chosen
     with ProcessPoolExecutor(max_workers=14) as ex:
         runs = list(ex.map(run_config, configs, chunksize=1))
